@@ -192,9 +192,64 @@ class C07(Prop):
         z = (est - ref) / np.sqrt(se ** 2 + refvar / ess)
         return [float(v) for v in z], float(out['acceptance_rate']), float(ess)
 
+    def _driver_run(self, dc, seed):
+        """The chain driver used by the inversion front end (McMCForwardTask) on data with a hard-edged posterior: every proposal the
+        forward model evaluates after the learning period must be a tried proposal of the chain."""
+        import types
+        np = self.np
+        from MTfit import inversion as inv
+        from MTfit.probability import probability as pr
+        nogc = types.SimpleNamespace(collect=lambda *a, **k: 0)
+        inv.gc = nogc
+        pr.gc = nogc
+        rs = np.random.RandomState(seed)
+        n = 7
+        st = {'Name': ['S%d' % i for i in range(n)], 'Azimuth': np.matrix(rs.uniform(0, 360, n)).T, 'TakeOffAngle': np.matrix(rs.uniform(20, 160, n)).T}
+        mtrue = np.array([0.6, -0.7, 0.1, 0.2, -0.1, 0.3])
+        mtrue = mtrue / np.linalg.norm(mtrue)
+        a = np.asarray(inv.station_angles(st, 'P'))
+        # tiny uncertainties: a large part of the source space has exactly zero likelihood
+        data = {'PPolarity': {'Stations': st, 'Measured': np.matrix(np.sign(a.dot(mtrue))).T, 'Error': np.matrix(1e-4 * np.ones((n, 1)))}}
+        a_pol, err_pol, ipp = inv.polarity_matrix(data)
+        kw = dict(learning_length=40, chain_length=400, acceptance_rate_window=20, initial_sample='grid', number_samples=2000,
+                  min_number_initialisation_samples=2000, dc=dc)
+        task = inv.McMCForwardTask(kw, a_pol, err_pol, False, False, False, False, False, False, False, ipp, normalise=True, convert=False)
+        counts = {'chain': 0, 'zero': 0}
+        orig = inv.ForwardTask.__call__
+
+        def counting(ft):
+            res = orig(ft)
+            alg = getattr(task, 'algorithm', None)
+            if alg is not None and not alg._initialising and not alg.learning_check():
+                counts['chain'] += 1
+                lp = res['ln_pdf']
+                lp = np.asarray(lp._ln_pdf if hasattr(lp, '_ln_pdf') else lp, dtype=float)
+                if lp.size == 0 or not np.isfinite(lp).any():
+                    counts['zero'] += 1
+            return res
+        np.random.seed(seed)
+        inv.ForwardTask.__call__ = counting
+        try:
+            out = task()['algorithm_output_data']
+        finally:
+            inv.ForwardTask.__call__ = orig
+        return {'evaluated_after_learning': counts['chain'], 'zero_likelihood_proposals': counts['zero'],
+                'reported_tried': int(out['total_number_samples']), 'entries': int(np.asarray(out['moment_tensor_space']).shape[1]),
+                'accepted': int(out['accepted'])}
+
     def extra(self, rng, tier):
-        runs = [(True, 3000, 11)] if tier == 'quick' else [(True, 20000, 11), (False, 20000, 12), (False, 20000, 13)]
-        cov, fails = {'posterior_runs': []}, []
+        runs = [(True, 3000, 11), (False, 4000, 12)] if tier == 'quick' else [(True, 20000, 11), (False, 20000, 12), (False, 20000, 13)]
+        cov, fails = {'posterior_runs': [], 'driver_runs': []}, []
+        for dc, seed in ([(False, 5)] if tier == 'quick' else [(False, 5), (True, 6), (False, 7)]):
+            d = self._driver_run(dc, seed)
+            d['dc'] = dc
+            cov['driver_runs'].append(d)
+            # the evaluation that ends the learning period and the one that ends the run are not chain proposals
+            if abs(d['evaluated_after_learning'] - d['reported_tried']) > 2 or d['entries'] != d['reported_tried'] + 1:
+                fails.append(Failure('property', {'kind': 'driver', 'dc': dc, 'seed': seed},
+                                     'chain driver of the front end: %d proposals were evaluated after the learning period (%d of them with zero '
+                                     'likelihood) but the chain reports %d tried proposals and holds %d entries' %
+                                     (d['evaluated_after_learning'], d['zero_likelihood_proposals'], d['reported_tried'], d['entries']), key='driver-count'))
         for dc, n, seed in runs:
             z, rate, ess = self._posterior_run(dc, n, seed)
             cov['posterior_runs'].append({'dc': dc, 'chain_length': n, 'seed': seed, 'z': z, 'acceptance_rate': rate, 'reference_ess': ess})
